@@ -303,6 +303,105 @@ def same_text_twice(mi: int, ui: int, other_cursor: bool) -> bool:
     return done(fast.native(_same_text_twice, fast.pick(mi, len(MODS)), fast.pick(ui, len(USES)), bool(fast.pick(other_cursor, 2))))
 
 
+# ------------------------------------------------------------------ the value is inserted verbatim also when the statement carries bound parameters
+PCT_VALUES = ["'50%'", "17 % 5", "'a%sb'", "'%(p)s and %%'", "'plain'", "'q ? %d'"]
+
+
+def _value_with_params(vi: int, style_q: bool, as_dict: bool, many: bool) -> bool:
+    import snowflake.connector
+
+    from vf.session import instance, std_engine
+
+    val = PCT_VALUES[vi]
+    style = "qmark" if style_q else "pyformat"
+    if style_q and as_dict:
+        return True  # qmark takes sequences only
+
+    def session():
+        eng = std_engine()
+        saved = snowflake.connector.paramstyle
+        snowflake.connector.paramstyle = style
+        try:
+            conn = instance(eng).connect(database="db1", schema="s1")
+        finally:
+            snowflake.connector.paramstyle = saved
+        cur = conn.cursor()
+        cur.execute(f"set v = {val}")
+        return eng, cur
+
+    ph = "?" if style_q else ("%(p)s" if as_dict else "%s")
+    params = {"p": 7} if as_dict else (7,)
+    eng1, c1 = session()
+    base1 = len(eng1.log)
+    if many:
+        c1.executemany(f"select a, $v as c from t1 where a = {ph}", [params])
+    else:
+        c1.execute(f"select a, $v as c from t1 where a = {ph}", params)
+    got = [(q, None) for _c, q in eng1.log[base1:] if isinstance(q, str) and q.upper().startswith("SELECT A")]
+    # reference: the same statement with the parameter written as a literal and no parameters
+    eng2, c2 = session()
+    base2 = len(eng2.log)
+    c2.execute("select a, $v as c from t1 where a = 7")
+    want = [q for _c, q in eng2.log[base2:] if isinstance(q, str) and q.upper().startswith("SELECT A")]
+    if len(got) != 1 or len(want) != 1:
+        return False
+    text = got[0][0]
+    if style_q:
+        text = "7".join(text.rsplit("?", 1))  # the placeholder is the last '?' of the statement (the value may contain one too)
+    return text == want[0]
+
+
+@ob(
+    "C15.value_is_verbatim_next_to_bound_parameters",
+    encodes=["fakesnow.cursor.FakeSnowflakeCursor.execute (variables are inlined, then parameters are bound)", "FakeSnowflakeCursor._rewrite_with_params", "fakesnow.variables.Variables.inline_variables"],
+    bounds="6 variable values containing %, %s, %(p)s, %%, %d, ? (string literals and an arithmetic expression) x paramstyle pyformat / qmark x parameters as tuple / dict x "
+    "execute / executemany: the engine receives the same statement as when the parameter is written as a literal (the value is neither %-formatted nor doubled)",
+    timeout=(200, 400),
+    stubs=["K1/K2 vf.duckstub.Engine"],
+)
+def value_with_params(vi: int, style_q: bool, as_dict: bool, many: bool) -> bool:
+    """
+    pre: 0 <= vi < len(PCT_VALUES)
+    post: _
+    """
+    P = fast.pick
+    return done(fast.native(_value_with_params, P(vi, len(PCT_VALUES)), bool(P(style_q, 2)), bool(P(as_dict, 2)), bool(P(many, 2))))
+
+
+def _real_value_with_params(a: dict):
+    import snowflake.connector
+
+    from fakesnow.instance import FakeSnow
+
+    val = PCT_VALUES[a["vi"]]
+    style = "qmark" if a["style_q"] else "pyformat"
+    saved = snowflake.connector.paramstyle
+    snowflake.connector.paramstyle = style
+    try:
+        conn = FakeSnow().connect(database="db1", schema="s1")
+    finally:
+        snowflake.connector.paramstyle = saved
+    cur = conn.cursor()
+    cur.execute("create table t1 (a int)")
+    cur.execute("insert into t1 values (7)")
+    cur.execute(f"set v = {val}")
+    ph = "?" if a["style_q"] else ("%(p)s" if a["as_dict"] else "%s")
+    params = {"p": 7} if a["as_dict"] else (7,)
+    want = cur.execute("select a, $v as c from t1 where a = 7").fetchall()
+    try:
+        if a["many"]:
+            cur.executemany(f"select a, $v as c from t1 where a = {ph}", [params])
+            got = cur.fetchall()
+        else:
+            got = cur.execute(f"select a, $v as c from t1 where a = {ph}", params).fetchall()
+    except Exception as e:  # noqa: BLE001
+        return True, f"real stack: with a bound parameter the statement raised {type(e).__name__}: {str(e)[:100]} (without: {want})"
+    return got != want, f"real stack: with a bound parameter {got}, with the literal {want}"
+
+
+REGISTRY["C15.value_is_verbatim_next_to_bound_parameters"].real_replay = _real_value_with_params
+
+
 # ------------------------------------------------------------------ independence of what happened before (shared harness)
 import obligations.shared_independence as _indep  # noqa: E402
 
